@@ -4,6 +4,7 @@
 -/
 import Wormhole.Tie.Srv
 import Wormhole.Tie.SrvStmts
+import Wormhole.Tie.SrvWs
 
 namespace Wormhole.Tie
 open Wormhole Wormhole.PySrv
